@@ -1,4 +1,5 @@
 //@ item src/sources/timer.rs / struct TimeoutData props=C05
+//@ rw R6 1 <<struct TimeoutData {>> => <<pub(crate) struct TimeoutData {>>
 //@ enditem
 //@ item src/sources/timer.rs / struct TimerWheel props=C05
 //@ enditem
